@@ -25,6 +25,8 @@ import (
 //   (2 2 en (#p ..))               zapio.Writer
 //   (2 3 size (op ..))             zapcore.BufferedWriteSyncer over an accepting sink
 //   (3 ((k ..) ..) (tid ..) var)   goroutines hammering Lock(sink)
+//   (4 mode root (step ..) (((h k) ..) ..) (tid ..))
+//                                  several handles onto one sink (c13_handles.go)
 
 // ---------------------------------------------------------------- combinators
 
@@ -807,6 +809,9 @@ func c13(c *Ctx) {
 		c13conc(c, r, prog, k%3, "lock-conc")
 	}
 	c13conc(c, r, [][]int{{0}}, 0, "lock-conc")
+
+	// ---- 6. several handles onto one sink (c13_handles.go)
+	c13handleCases(c)
 }
 
 func init() { registry["C13"] = c13 }
